@@ -1,6 +1,8 @@
 """Worker for C18: drive the REAL streaming helpers over chunked httpx responses.
 
-stdin: JSON list of jobs {"id", "mode": "sse"|"ndjson", "bytes": [0..255, ...], "chunkings": [[cut, ...], ...]}
+stdin: JSON list of jobs {"id", "mode": "sse"|"ndjson", "bytes": [0..255, ...], "ctype": Content-Type or null,
+                          "chunkings": [[cut, ...], ...]}
+   or  {"id", "kind": "pair", "streams": [{"mode","bytes","helper"} x 2], "runs": [{"c1","c2","sched"}, ...]} (see run_pair)
 A chunking is the sorted list of cut positions (a cut c splits between byte c and byte c+1); [] is the unsplit stream.
 For every chunking the stream is served as `httpx.Response(200, content=<async iterator over the chunks>)` to
   sse    : iter_sse, iter_sse_events_text, iter_bytes
@@ -68,10 +70,10 @@ async def chunks_of(parts: list[bytes]):
         yield p
 
 
-async def run_one(dec: str, fn: Any, parts: list[bytes]) -> dict:
+async def run_one(dec: str, fn: Any, parts: list[bytes], ctype: str | None = None) -> dict:
     items: list[Any] = []
     err = "none"
-    resp = httpx.Response(200, content=chunks_of(parts))
+    resp = httpx.Response(200, headers={"content-type": ctype} if ctype else None, content=chunks_of(parts))
     try:
         async for it in fn(resp):
             items.append(norm(dec, it))
@@ -107,7 +109,7 @@ async def run_job(job: dict) -> dict:
         keys: dict[str, int] = {}
         idx: list[int] = []
         for cuts in job["chunkings"]:
-            o = await run_one(dec, fn, split(data, cuts))
+            o = await run_one(dec, fn, split(data, cuts), job.get("ctype"))
             if o.pop("_same", False):
                 out["same_chunks"] = out.get("same_chunks", 0) + 1
             k = json.dumps(o, sort_keys=True)
@@ -120,10 +122,107 @@ async def run_job(job: dict) -> dict:
     return out
 
 
+# ---------------------------------------------------------------------------------------------
+# two streams in one event loop, chunks handed over according to a schedule computed by TLC (StreamPair.tla):
+# sched = [10 * stream + code, ...], code 0 = deliver the stream's next chunk, 1 = end of stream, 2 = transport error
+
+
+class Injected(httpx.ReadError):
+    pass
+
+
+class Turns:
+    def __init__(self, sched: list[int]):
+        self.sched = sched
+        self.i = 0
+        self.gone: set[int] = set()
+
+    async def wait(self, sid: int) -> int:
+        spins = 0
+        while True:
+            while self.i < len(self.sched) and self.sched[self.i] // 10 in self.gone:
+                self.i += 1
+            if self.i >= len(self.sched):
+                return 1  # schedule exhausted (a stream ended early): let the stream end
+            if self.sched[self.i] // 10 == sid:
+                return self.sched[self.i] % 10
+            spins += 1
+            if spins > 100000:
+                raise RuntimeError("schedule stuck")
+            await asyncio.sleep(0)
+
+    def advance(self) -> None:
+        self.i += 1
+
+
+async def sched_chunks(sid: int, parts: list[bytes], t: Turns):
+    for p in parts:
+        code = await t.wait(sid)
+        if code == 2:
+            t.advance()
+            raise Injected("connection lost (schedule)")
+        if code == 1:
+            break
+        yield p  # the consumer now processes the chunk and comes back for the next one
+        t.advance()
+    code = await t.wait(sid)
+    t.advance()
+    if code == 2:
+        raise Injected("connection lost (schedule)")
+
+
+async def consume(sid: int, dec: str, fn: Any, parts: list[bytes], t: Turns) -> dict:
+    items: list[Any] = []
+    err = "none"
+    resp = httpx.Response(200, content=sched_chunks(sid, parts, t))
+    try:
+        async for it in fn(resp):
+            items.append(norm(dec, it))
+    except Injected:
+        err = "aborted"
+    except Exception as e:  # noqa: BLE001
+        err = type(e).__name__
+    finally:
+        t.gone.add(sid)
+        try:
+            await resp.aclose()
+        except Exception:  # noqa: BLE001
+            pass
+    return {"items": items, "err": err}
+
+
+async def run_pair(job: dict) -> dict:
+    st = job["streams"]
+    data = [bytes(x["bytes"]) for x in st]
+    fns = [getattr(sh, x["helper"], None) for x in st]
+    out: dict = {"id": job["id"], "absent": [x["helper"] for x, f in zip(st, fns) if f is None], "runs": 0}
+    if out["absent"]:
+        return out
+    out["ref"] = [await run_one(x["helper"], f, [d]) for x, f, d in zip(st, fns, data)]
+    outs: list[list[dict]] = [[], []]
+    keys: list[dict[str, int]] = [{}, {}]
+    idx: list[list[int]] = [[], []]
+    for run in job["runs"]:
+        t = Turns(run["sched"])
+        parts = [split(data[0], run["c1"]), split(data[1], run["c2"])]
+        res = await asyncio.gather(*[consume(i + 1, st[i]["helper"], fns[i], parts[i], t) for i in (0, 1)])
+        for i in (0, 1):
+            k = json.dumps(res[i], sort_keys=True)
+            if k not in keys[i]:
+                outs[i].append(res[i])
+                keys[i][k] = len(outs[i])
+            idx[i].append(keys[i][k])
+        out["runs"] += 1
+    out["outs"] = outs
+    out["idx"] = idx
+    return out
+
+
 async def amain() -> None:
     jobs = json.load(sys.stdin)
     for job in jobs:
-        print(json.dumps(await run_job(job)), flush=True)
+        r = await (run_pair(job) if job.get("kind") == "pair" else run_job(job))
+        print(json.dumps(r), flush=True)
 
 
 if __name__ == "__main__":
